@@ -42,6 +42,9 @@ CLAIMED = {
  "C20": ("bounded-exhaustive enumeration (complete in the thorough tier, seed-sampled beyond length 4 in quick) of sigil spellings x 23 languages, An+B strings x 40 indices, substring arguments and fix templates against independent reference classifiers / parsers / Python-slice model",
          "Exhaustive up to the stated bounds: all 55 986 strings over {$,A,B,a,1,_} of length <= 6 in every language, all 597 870 An+B candidates over {n,N,+,-,0-3,space} of length <= 6 on 40 sibling indices, all 23 716 substring cases, all 55 986 template strings; beyond the bounds nothing is claimed.",
          "Trusted: the reference classifier/An+B parser/slice model written from the documentation; one leaf context per language; whitespace inside An+B is ignored as the implementation documents.", "DESIGN.md §5 C20"),
+ "C13": ("proptest + metamorphic relation: generated projects with inter-dependent maps, key/document/file-name permutations by generated seeds, K relaunches per variant in fresh processes; oracle = equality of normalised outputs and snapshot file digests",
+         "Randomised exploration through the real binary: 160 (quick) to 1.5x10^3 (thorough) projects x 4-7 permuted variants x 4-8 launches each (10^3-10^5 process launches); any disagreement between launches or variants is a violation.",
+         "Trusted: nothing about hash seeds can be chosen or replayed from a seed; a non-determinism that needs a rarer seed than the launches sample is missed; replay re-launches 20 times per variant.", "DESIGN.md §5 C13"),
  "C14": ("proptest: generated single-line statements x suppression comment placements/id lists in 8 languages; oracle O-suppress computed from the text (line arithmetic + id lists) over the unsuppressed findings; library (both separate_fix modes) and CLI drivers",
          "Randomised exploration: 2x10^4 (quick) to 3x10^5 (thorough) generated files through CombinedScan::scan plus hundreds to thousands through `sg scan --json` in a project with all rules enabled; reported findings and unused-suppression entries must equal the model exactly.",
          "Trusted: each rule's unsuppressed findings come from find_all of that rule alone (C01); comment placements limited to the two the property covers.", "DESIGN.md §5 C14"),
